@@ -25,6 +25,8 @@
 //! [`Registry::dispatch_with_ctx`](crate::registry::Registry::dispatch_with_ctx)
 //! with a populated [`CallContext`].
 
+#[cfg(repe_verif_loom)]
+use crate::verif_loom::std_shadow as std;
 use crate::constants::BodyFormat;
 use crate::error::RepeError;
 use serde::Serialize;
